@@ -337,6 +337,10 @@ def listtbl_jobs(tier):
     for opt in (0, 1, 3, 9):
         jobs.append(Job("listtbl-pair-opt%02d" % opt, H, ["pair", opt], wraps=VA_WRAPS, weight=2))
     jobs.append(bigfmt_job("qlisttbl"))
+    # histories without merging (hidden state the canonical key cannot know): from a table of 3 entries every sequence of <= 3 (thorough 4) operations, get/getmulti included
+    for opt in (0, 3, 6, 15):
+        for i in range(2):
+            jobs.append(Job("listtbl-hist-opt%02d-%d" % (opt, i), H, [opt, 5, 2, "hist", 3, 4 if X else 3, i, 2], wraps=VA_WRAPS, weight=8))
     return jobs
 
 
